@@ -36,7 +36,7 @@ func readState(path string) ([]byte, bool) {
 }
 
 func checkC15(c *Ctx) {
-	c.rule = "the real age and age-keygen binaries (rebuilt from the working tree) in scratch directories: decrypt x {valid file of 0 / 1 / 100 / cs+1 plaintext bytes, armored, header bit flipped, wrong identity, payload flipped in the first / second chunk, truncated} x output {-o fresh file, -o existing file, -o in a missing directory, -o under a regular file, -o with RLIMIT_FSIZE = n for every n up to the size of small outputs and around chunk boundaries, stdout to a pipe, stdout = /dev/full}; encrypt x the same outputs; output naming the input / identity file / recipients file as x, ./x, d/../x, $PWD/x, .//x; age-keygen with existing / fresh -o, stdout, /dev/full, -y, umask 0/022/077. Compared with the model (Cli.v fed with the library outcome): exit status = 0?, state of the -o path (absent / unchanged / content), file mode. distinct_nontrivial = distinct (operation, input, output) cases."
+	c.rule = "the real age and age-keygen binaries (rebuilt from the working tree) in scratch directories: decrypt x {valid file of 0 / 1 / 100 / cs+1 plaintext bytes, armored, header bit flipped, wrong identity, payload flipped in the first / second chunk, truncated mid-chunk / right after the nonce / inside the nonce / exactly at a chunk boundary} x output {-o fresh file, -o existing file, -o in a missing directory, -o under a regular file, -o with RLIMIT_FSIZE = n for every n up to the size of small outputs and around chunk boundaries, stdout to a pipe, stdout = /dev/full}; encrypt x the same outputs; output naming the input / identity file / recipients file as x, ./x, d/../x, $PWD/x, .//x; age-keygen with existing / fresh -o, stdout, /dev/full, -y, umask 0/022/077. Compared with the model (Cli.v fed with the library outcome): exit status = 0?, state of the -o path (absent / unchanged / content), file mode. distinct_nontrivial = distinct (operation, input, output) cases."
 	dir, _ := os.MkdirTemp("", "verif-c15-")
 	defer os.RemoveAll(dir)
 	pty := x25519Party(c.rng.bytes(32))
@@ -73,6 +73,10 @@ func checkC15(c *Ctx) {
 			inputs = append(inputs, input{"wrong-identity", f, ":refused", "other.txt"})
 			tr := f[:len(f)-10]
 			inputs = append(inputs, input{"truncated", tr, lst(":fail", "-"), "key.txt"})
+			// cut exactly after the payload nonce (no chunk at all) and in the middle of the nonce
+			hl := len(f) - (n + 16) - 16
+			inputs = append(inputs, input{"truncated-after-nonce", f[:hl+16], lst(":fail", "-"), "key.txt"})
+			inputs = append(inputs, input{"truncated-in-nonce", f[:hl+7], ":refused", "key.txt"})
 			pf := append([]byte{}, f...)
 			pf[len(pf)-1] ^= 1
 			inputs = append(inputs, input{"payload-flip", pf, lst(":fail", "-"), "key.txt"})
@@ -81,6 +85,9 @@ func checkC15(c *Ctx) {
 			pf := append([]byte{}, f...)
 			pf[len(pf)-1] ^= 1 // second chunk damaged: the first chunk is released
 			inputs = append(inputs, input{"payload-flip-chunk2", pf, lst(":fail", hx(plain[:chunkSize])), "key.txt"})
+			// cut exactly at the chunk boundary: the first chunk is released, then the truncation must be reported
+			hl := len(f) - (n + 2*16) - 16
+			inputs = append(inputs, input{"truncated-at-chunk-boundary", f[:hl+16+chunkSize+16], lst(":fail", hx(plain[:chunkSize])), "key.txt"})
 		}
 	}
 	cliCase := func(kind string, in map[string]interface{}, implExit bool, implState string, model string) {
